@@ -15,6 +15,26 @@ CHECKS = {
    "bounded exhaustive program exploration on the real code + exact structural validator and singleton laws",
    "Every result of the C01 expression families plus the singleton-law family (S|~S, S&~S, S-S, S^S, S^~S, ...) and the Empty/Whole tables for every alphabet shape of every kind is validated structurally with exact arithmetic (closed chains, no zero-length piece, no self-crossing, outer boundary/holes/components nesting, sorted subshapes, documented kind tables) and singletons are demanded by identity exactly when the reference region is empty/whole on every arrangement face.",
    "Isolated contact points between boundaries are tolerated (A ^ B of crossing shapes cannot be represented without them); reference model mc/refgeo.py."),
+ "C02": ("exploration", "2/C02",
+   "exhaustive evaluation of a finite shape x point alphabet on the real code against exact reference membership",
+   "Every shape of the finite alphabets (all kinds, orientations, numeric types, degrees 1-3, composites, unbounded) is queried at every point of a systematic point alphabet (one witness per arrangement face, box lattice, vertices, edge points, normal offsets down to 1e-4*size on both sides of every edge/arc, far points) with `in`, contains_point(True/False) and `p in curve`; the reference is exact for polygons and adaptive for curves. 'All points' is a finite alphabet here: the implementation's answer is not provably constant on faces.",
+   "Reference winding numbers in mc/refgeo.py; points nearer than 1e-4*size to a boundary are not judged."),
+ "C03": ("exploration", "2/C03",
+   "all ordered pairs of a finite shape alphabet on the real code against the exact subset relation (line-arrangement faces); curves split at exact contacts",
+   "All ordered pairs (A, B) of the shape alphabet incl. Empty/Whole, composites and unbounded shapes, plus every boundary curve against every shape with both boundary flags; the polygonal oracle is exact and complete per pair; consequences A|B == A, A&B == B are checked on the real operators.",
+   "Polygonal alphabets only (curved containment is exercised through C01/C12 tiers); reference in mc/refgeo.py."),
+ "C04": ("exploration", "2/C04",
+   "exhaustive shape families x exponent grid on the real code against exact closed-form boundary integrals",
+   "All lattice triangles/quadrilaterals of a small grid, the polygon/composite alphabets and curved shapes of degree 2 and 3, in int/Fraction/float and both orientations, for all exponents a+b <= 4 (6 thorough): exact equality and rational type for rational polygons, 1e-12 for float polygons, 1e-10 where the library rule is nominally exact, quadrature tolerance otherwise.",
+   "Exact polynomial integration in mc/refgeo.py."),
+ "C13": ("exploration", "2/C13",
+   "exhaustive rational alphabets x operations on the real code, object-graph walk for number types, exact crossing oracle; byte-identical dumps under Python 3.11 and 3.12",
+   "Rational polygon alphabets (int, Fraction, mixed, a denominator ladder straddling 10^9) x operators, depth-2 programs, intersection, split, integrals, move/scale: every stored number is int or a well-formed Fraction, parameters/vertices/moments equal the exact values, results identical under the second interpreter.",
+   "python3-vt 3.11.7 with stub matplotlib stands for Python 3.11; float(S) (a float sum) is not part of the rational claim."),
+ "C14": ("exploration", "2/C14",
+   "all ordered pairs of a closed-curve alphabet x all flag combinations on the real code against exact / subdivision reference crossings",
+   "Every ordered pair of curves (polygons in three numeric types, shared/identical/reversed/rotated/collinear configurations, curved alphabet) x (equal_beziers, end_points) and A & B: tuple encoding, point identity, completeness for transversal contacts, parity, swap symmetry, None marker, flag filters.",
+   "Tangential contacts are outside the alphabets; curved reference by box subdivision to 1e-11."),
 }
 NOT_BUILT = {}
 props = [json.loads(l) for l in open(os.path.join(ROOT, "properties.jsonl"))]
